@@ -1,5 +1,6 @@
 /-
-C13 — the vary mark: `httpMakeVaryMark` / `assembleVaryKey` (src/http.cc) and the header lookup it uses,
+C13 — the vary mark: `httpMakeVaryMark` / `assembleVaryKey` (src/http.cc) with its by-name combination of field lines
+(`combinedByName`), and — for the record and for the `G` correspondence op — the lookup it used before /repo a1b669e:
 `HttpHeader::getByName` → `hasNamed` → `getByIdIfPresent` → `getStrOrList` / `getList` / `findEntry` (src/HttpHeader.cc),
 including the `String` copy that turns an empty value of a registered non-list header into an undefined String.
 -/
@@ -48,6 +49,11 @@ def getByName (h : Hdrs) (name : Bytes) : Option Bytes :=
     -- getList(id) / the linear search of hasNamed: strListAdd over every matching entry
     joinValues (valuesOf h name)
 
+/-- the lookup `assembleVaryKey` performs since /repo a1b669e: every entry whose name equals `name` ignoring case
+(`e->name.caseCmp(name) == 0`, registered or not) contributes its value through `strListAdd`; `none` = no such entry
+(`present == false`), so an empty value is distinct from a missing field and all field lines count -/
+def combinedByName (h : Hdrs) (name : Bytes) : Option Bytes := joinValues (valuesOf h name)
+
 def star : Bytes := [42]
 
 /-- the body of the `while` loop of `assembleVaryKey` after the `*` test, for the lower-cased `name` -/
@@ -62,7 +68,7 @@ def assembleFrom (h : Hdrs) : List Bytes → Bytes → Bytes
   | [], vstr => vstr
   | name :: rest, vstr =>
     if name == star then star    -- `vstr = asterisk; break;`
-    else assembleFrom h rest (appendName vstr (lower name) (getByName h (lower name)))
+    else assembleFrom h rest (appendName vstr (lower name) (combinedByName h (lower name)))
 
 /-- `assembleVaryKey(vary, vstr, request)` with `vary` the joined field (possibly undefined) -/
 def assembleVaryKey (vary : Option Bytes) (vstr : Bytes) (h : Hdrs) : Bytes :=
